@@ -127,7 +127,7 @@ def c07(tier, seed):
             return [ALL_MODES[(2 * i + 1) % 6] + [{}], ALL_MODES[(2 * i + 4) % 6] + [{}]]
         return [m + [{}] for m in ALL_MODES]
 
-    jobs = _static_jobs(seed, 4 if quick else 24, 4 if quick else 24, modes_rec, modes_gen, "c07")
+    jobs = _static_jobs(seed, 6 if quick else 24, 6 if quick else 24, modes_rec, modes_gen, "c07")
     results = common.run_jobs(jobs, timeout=1800)
     items = _collect(rep, results, "traces")
     vs = _judge(rep, items, "RexSchedule", SCHED_CLAUSE_PROPS, {"C07"}, "schedule")
@@ -189,7 +189,7 @@ def c01(tier, seed):
             return [ALL_MODES[i % 6] + [{}], ALL_MODES[(i + 3) % 6] + [{}]]
         return [m + [{}] for m in ALL_MODES]
 
-    jobs = _run_jobs_for(seed + 100, 6 if quick else 32, "c01g", runs_of, modes_of, match_async=True,
+    jobs = _run_jobs_for(seed + 100, 10 if quick else 32, "c01g", runs_of, modes_of, match_async=True,
                          fam=("slow_side_node", "slow_producer", "same_generation_pair", "fast_node"))  # position 3 compiles GENERATIONAL in the quick tier
     # the async side of the pair: the same worker validates nothing about the threaded runtime; that is C02-C04's business. Here
     # the two probe logs are compared step by step (clauses MatchesAsync_*) and the compiled log must be a run of RexRun.
@@ -228,8 +228,8 @@ def c08(tier, seed):
         ms = [ALL_MODES[(i * 2 + j) % 6] + [{"extra_padding": pads[(i + j) % 3]}] for j in range(2 if quick else 6)]
         return ms
 
-    jobs = _run_jobs_for(seed + 200, 5 if quick else 20, "c08r", runs_of, modes_of, fam=("same_generation_pair", "slow_producer", "fast_node", "same_generation_pair", "slow_side_node"))  # positions 0 and 3 run with extra_padding 0; position 2 compiles TOPOLOGICAL (uniform scan path, > 10 slots of a kind)
-    jobs += _run_jobs_for(seed + 250, 2 if quick else 12, "c08g", runs_of, modes_of, source="generate")
+    jobs = _run_jobs_for(seed + 200, 8 if quick else 20, "c08r", runs_of, modes_of, fam=("same_generation_pair", "slow_producer", "fast_node", "same_generation_pair", "slow_side_node"))  # positions 0 and 3 run with extra_padding 0; position 2 compiles TOPOLOGICAL (uniform scan path, > 10 slots of a kind)
+    jobs += _run_jobs_for(seed + 250, 4 if quick else 12, "c08g", runs_of, modes_of, source="generate")
     results, run_items, vs, metas = _run_campaign(rep, jobs, {"C08"})
     # user-supplied buffer sizes: every admissible size must work, a size below the minimum must be refused by rex
     bjobs = []
@@ -365,7 +365,7 @@ def c06_compiled(rep, tier, seed):
         return ([ALL_MODES[(i * 2) % 6] + [{}], ALL_MODES[(i * 2 + 3) % 6] + [{"skip_nonsup": i}]] if quick
                 else [m + [{}] for m in ALL_MODES] + [ALL_MODES[i % 6] + [{"skip_nonsup": i}], ALL_MODES[(i + 3) % 6] + [{"skip_nonsup": i + 1}]])
 
-    jobs = _run_jobs_for(seed + 300, 4 if quick else 12, "c06c", runs_of, modes_of, fam=("rare_overrun", "fast_node", "slow_side_node"))  # position 0: MCS; position 1: GENERATIONAL + TOPOLOGICAL
+    jobs = _run_jobs_for(seed + 300, 7 if quick else 12, "c06c", runs_of, modes_of, fam=("rare_overrun", "fast_node", "slow_side_node"))  # position 0: MCS; position 1: GENERATIONAL + TOPOLOGICAL
     results, run_items, vs, metas = _run_campaign(rep, jobs, {"C06"})
     n = 0
     for (job, res, t), v in zip(run_items, vs):
@@ -437,12 +437,16 @@ def c13(tier, seed):
 
     def runs_of(i, rng):
         combos = [full, dict(state=True, output=True), dict(rng=True), dict(inputs=True, params=True), None]
-        return [dict(eps=e, history=["rollout:99"], record=c) for e in (0, 1) for c in (combos if not quick else combos[:3] + [None])]
+        rs = [dict(eps=e, history=["rollout:99"], record=c) for e in (0, 1) for c in (combos if not quick else combos[:3] + [None])]
+        # gym-style driving with overridden supervisor steps: an overridden step is an executed step of the record (its output is what the caller
+        # handed over), only its step function did not run
+        rs += [dict(eps=e, history=["reset", "step", "stepo", "stepo", "step", "stepo"], record=c) for e in ((0,) if quick else (0, 1)) for c in (full, dict(output=True), None)]
+        return rs
 
     def modes_of(i):
         return [ALL_MODES[(i * 2) % 6] + [{}]] if quick else [ALL_MODES[(i + j) % 6] + [{}] for j in range(3)]
 
-    cjobs = _run_jobs_for(seed + 400, 2 if quick else 8, "c13c", runs_of, modes_of)
+    cjobs = _run_jobs_for(seed + 400, 4 if quick else 8, "c13c", runs_of, modes_of)
     for j in cjobs:
         j["digest_no_aux"] = True
     results, run_items, vs, metas = _run_campaign(rep, cjobs, {"C13"})
@@ -451,7 +455,7 @@ def c13(tier, seed):
             continue
         by = {}
         for t, d in zip(res["runs"], res.get("digests", [])):
-            by.setdefault((t["id"].rsplit("/r", 1)[0], t["eps"]), []).append((t["id"], d))
+            by.setdefault((t["id"].rsplit("/r", 1)[0], t["eps"], json.dumps(t["ops"])), []).append((t["id"], d))   # same graph, episode and call history
         for key, lst in by.items():
             for tid_, d in lst[1:]:
                 if d != lst[0][1]:
